@@ -253,6 +253,21 @@ pub fn run_program(program: &Program, world: &Shared, budget: u64) -> RunResult 
                     }
                     // attribution
                     let (row, col) = (pos.row(), pos.col());
+                    // every instruction must carry a position inside the code of some
+                    // line ((1, 1) is the placeholder of internal arguments)
+                    if row != u32::MAX
+                        && !(row == 1 && col == 1)
+                        && !w.code_lines.is_empty()
+                        && w.pos_off_table.is_none()
+                    {
+                        let ok = match w.code_lines.get(&row) {
+                            Some((c0, c1)) => *c0 <= col && col <= *c1,
+                            None => false,
+                        };
+                        if !ok {
+                            w.pos_off_table = Some((*pc, row, col));
+                        }
+                    }
                     if row != u32::MAX {
                         let hit = w.stmt_at(row, col).copied();
                         match hit {
@@ -264,6 +279,7 @@ pub fn run_program(program: &Program, world: &Shared, budget: u64) -> RunResult 
                                     Instruction::AllocateBuiltIn(_)
                                         | Instruction::AllocateFixedLengthString(_)
                                         | Instruction::AllocateUserDefined(_)
+                                        | Instruction::IsVariableDefined(_)
                                 );
                                 let started = *is_statement_start && !is_alloc;
                                 let occ = {
